@@ -347,6 +347,22 @@ impl ProjectGenerator {
         self.rust_crate_deps.insert(crate_name.to_string(), version);
     }
 
+    /// Return an error for the first (by name) `rust::` crate that has no known-good version mapping.
+    ///
+    /// Callers must refuse to generate a project in that case: there is no wildcard fallback.
+    pub fn first_unknown_crate(&self) -> Option<UnknownCrateError> {
+        let mut unknown: Vec<&String> = self
+            .rust_crate_deps
+            .iter()
+            .filter(|(_, spec)| spec.is_none())
+            .map(|(name, _)| name)
+            .collect();
+        unknown.sort();
+        unknown.first().map(|name| UnknownCrateError {
+            crate_name: (*name).clone(),
+        })
+    }
+
     /// Add a Rust crate with a specific version spec
     pub fn add_rust_crate_with_version(&mut self, crate_name: &str, version_spec: &str) {
         self.rust_crate_deps
